@@ -113,3 +113,57 @@ package routing
 //@   allocates ConfigurationPayload, FileSystemBackUp, FileSystemOperation, cell, map
 //@   ensures[rolled-back-on-failure] gfailed ==> diskAsBefore() || !grestoreOK
 //@   ensures[one-verdict] !(gok && gfailed)
+
+// ---------------------------------------------------------------- C11: a transaction's request and response ask for the policies under the transaction's own id
+// (policy mode only: requires !IsStreamsEnabled, the flows branch is not looked at here) ghost record of the question put to the accessor and of what was handed to the dispatcher
+//@ ghost var gPolicyAsked bool
+//@ ghost var gPolicyKey config.TxnID
+//@ ghost var gPolicyData *config.PoliciesData
+//@ ghost var gDispatchedTree *config.EndpointPolicyTree
+//@ extern TxnPoliciesAccessor.GetTxnPoliciesData
+//@   params txnID
+//@   modifies gPolicyAsked, gPolicyKey, gPolicyData, now
+//@   ensures gPolicyAsked && gPolicyKey == txnID && result != nil && gPolicyData == result
+//@ extern runner.DispatchOnRequest
+//@   params onRequest, policyTree, policiesConfig, services, diagnosisWorker
+//@   modifies gDispatchedTree, now
+//@   ensures gDispatchedTree == policyTree
+//@ extern runner.DispatchOnResponse
+//@   params onResponse, policyTree, globalPolicies, services, diagnosisWorker
+//@   modifies gDispatchedTree, now
+//@   ensures gDispatchedTree == policyTree
+//@ extern runner.RunFlow
+//@   modifies heap
+//@ extern readRequestArgs
+//@   modifies now
+//@ extern readResponseArgs
+//@   modifies now
+//@ pure HandlingDataManager.IsStreamsEnabled
+//@ pure HandlingDataManager.GetTxnPoliciesAccessor
+//@ extern HandlingDataManager.GetMetricManager
+//@   modifies nothing
+//@ extern MetricManager.UpdateMetricsForAPICall
+//@   modifies now
+//@ extern MetricManager.UpdateMetricsForFlow
+//@   modifies now
+//@ extern stream_types.NewRequestAPIStream
+//@   modifies now
+//@ extern stream_types.NewResponseAPIStream
+//@   modifies now
+
+//@ func processRequest
+//@   prop C11
+//@   mode seq
+//@   requires data != nil && !data.IsStreamsEnabled()
+//@   allocates any
+//@   modifies heap, gPolicyAsked, gPolicyKey, gPolicyData, gDispatchedTree, now
+//@   on entry do gPolicyAsked = false
+//@   ensures[policies-of-this-transaction] gPolicyAsked && gPolicyKey == config.TxnID(args.ID) && gDispatchedTree == &gPolicyData.EndpointPolicyTree
+//@ func processResponse
+//@   prop C11
+//@   mode seq
+//@   requires data != nil && !data.IsStreamsEnabled()
+//@   allocates any
+//@   modifies heap, gPolicyAsked, gPolicyKey, gPolicyData, gDispatchedTree, now
+//@   on entry do gPolicyAsked = false
+//@   ensures[policies-of-this-transaction] gPolicyAsked && gPolicyKey == config.TxnID(args.ID) && gDispatchedTree == &gPolicyData.EndpointPolicyTree
